@@ -1,39 +1,6 @@
-mod alpha;
-mod ast;
-mod c01;
-mod c02;
-mod mutgen;
-mod c03;
-mod interp;
-mod progen;
-mod c04;
-mod c05;
-mod c06;
-mod c07;
-mod c08;
-mod c09;
-mod c10;
-mod c11;
-mod c12;
-mod c13;
-mod modsplit;
-mod c14;
-mod c15;
-mod c16;
-mod c17;
-mod c18;
-mod c20;
-mod syngen;
-mod synterm;
-mod c19;
-mod choices;
-mod cli;
-mod engine;
-mod lexgen;
-mod reflex;
-mod treegen;
 
-use engine::*;
+use pv::engine::*;
+use pv::*;
 
 fn checks() -> Vec<Box<dyn Check>>
 {
